@@ -166,6 +166,14 @@ def run_plan(harness, items, nworkers=None, time_budget=60.0, max_paths=None, en
             _merge(agg, res)
             total_paths += res.get("paths", 0)
             left = res.get("leftover", [])
+            cap = items[unit["idx"]].get("bounds", {}).get("max_paths")
+            if left and cap and agg.get("paths", 0) >= cap:
+                # this item has had its share: what is left of it stays unexplored (reported as such)
+                agg["unexplored"] += len(left)
+                agg["exhaustive"] = False
+                lo = agg.setdefault("unexplored_min_preemptions", 99)
+                agg["unexplored_min_preemptions"] = min(lo, min(p[1] for p in left))
+                left = []
             if left:
                 # split leftovers: many small units while workers are idle
                 nidle = sum(1 for x in workers if x.busy is None) + (nworkers - len(workers))
